@@ -50,7 +50,7 @@ TSet == Logged("set") /\ CanSet /\ DoSet /\ Note(E.key = Item_.key /\ E.val = Se
 TGetItem == Logged("get") /\ CanGetItem /\ DoGet /\ Note(E.key = Item_.key /\ E.val = Read(vars, Item_.key), "get", [key |-> Item_.key, val |-> Read(vars, Item_.key)])
 TGetArg  == Logged("get") /\ CanArgGet /\ ArgGet /\ Note(E.key = Item_.v.key /\ E.val = Read(vars, Item_.v.key), "get", [key |-> Item_.v.key, val |-> Read(vars, Item_.v.key)])
 TRet == /\ Logged("ret") /\ CanRet /\ EndQuery
-        /\ Note(E.ok /\ E.rows = out, "api", [rows |-> out])
+        /\ Note(E.ok /\ E.rows = Window(out, -1, Q_.lim), "api", [rows |-> Window(out, -1, Q_.lim)])
         /\ Note(E.ok /\ MapOf(E.vars) = vars, "vars", [vars |-> vars])
 \* steps the wrappers cannot see
 Silent == l <= Len(Trace) /\ E.ev # "start" /\ CanSilent /\ (DoCol \/ EndRow) /\ UNCHANGED l
